@@ -5,7 +5,12 @@ Codec only: the string is the exported characters joined; model time t <-> t * u
 1.0 / 0.5 / 2.0 - binary fractions, so float arithmetic is exact - given as float or timedelta);
 value ["int", text] <-> int(text), ["float", text] <-> float(text), ["str", text] <-> text,
 ["lk", key] <-> the object the lookup dict maps that key to (identity); 'E' <-> the exception object
-passed as error= (identity), or an Exception('error') when none is passed."""
+passed as error= (identity), or an Exception('error') when none is passed.
+
+Wide digits: a model digit in scn["wide"] stands for a block of alen / blen digit characters of the real string (the
+model counts that many frames for it); the codec decodes it to a numeral of exactly that length whose integer does not
+fit a double's 53-bit mantissa (TLC integers are 32-bit, so these live here).  ["int", text] <-> the integer written by
+the decoded digits (folded digit by digit, exactly); ["nlk", text] <-> the object the lookup maps that INTEGER key to."""
 from __future__ import annotations
 
 import warnings
@@ -14,6 +19,22 @@ from typing import Any, Dict, List, Optional, Tuple
 
 SUBSCRIBED = 200.0
 FALSY_LK = [None, 0, "", (), False, 0.0]
+
+
+# decodings of a wide digit per profile: 16-digit block / 19-digit block (no leading zero)
+WIDE_A = ["9007199254740993",      # 2**53 + 1
+          "9999999999999999",      # nearest double is 10**16
+          "9007199254740995"]
+WIDE_B = ["1000000000000000007",   # 10**18 + 7
+          "1695427200000000001",   # a nanosecond timestamp
+          "9223372036854775807"]   # 2**63 - 1
+
+
+def exact_int(digits: str) -> int:
+    n = 0
+    for ch in digits:
+        n = n * 10 + "0123456789".index(ch)
+    return n
 
 
 class MarbleErr(Exception):
@@ -35,8 +56,17 @@ def text(t: List[str]) -> str:
 
 
 class Codec:
-    def __init__(self, scn: Dict[str, Any], unit: float, falsy: bool, with_error: bool, term: bool = False):
-        self.s = text(scn["s"])
+    def __init__(self, scn: Dict[str, Any], unit: float, falsy: bool, with_error: bool, term: bool = False,
+                 wide_profile: int = 0):
+        self.dec: Dict[str, str] = {}
+        w = scn.get("wide") or {}
+        for c in w.get("a", []):
+            self.dec[c] = WIDE_A[wide_profile % len(WIDE_A)]
+            assert len(self.dec[c]) == w["alen"]
+        for c in w.get("b", []):
+            self.dec[c] = WIDE_B[wide_profile % len(WIDE_B)]
+            assert len(self.dec[c]) == w["blen"]
+        self.s = self.real(scn["s"])
         self.par = scn["par"]
         self.unit = unit
         self.err = MarbleErr("boom") if with_error else None
@@ -52,14 +82,32 @@ class Codec:
         self.lookup_arg: Optional[Dict[Any, Any]] = dict(self.lookup) if keys else None
         if keys and not falsy:
             self.lookup_arg["zz-not-in-any-string"] = LK("noise")   # a key no marble uses must change nothing
+        # numeric keys: the integer the key's numeral writes
+        self.nlookup = {self.real(k): LK(self.real(k)) for k in sorted(text(k) for k in self.par.get("nk", []))}
+        if self.nlookup:
+            self.lookup_arg = dict(self.lookup_arg or {})
+            ints = {exact_int(k) for k in self.nlookup}
+            for k, v in self.nlookup.items():
+                self.lookup_arg[exact_int(k)] = v
+            for n in sorted(ints):
+                # keys no marble of the string writes (the nearest double's integer, the neighbours): must change nothing
+                for other in (int(float(n)), n + 1, n - 1):
+                    if other not in ints:
+                        self.lookup_arg.setdefault(other, LK("noise"))
+
+    def real(self, t: List[str]) -> str:
+        """the characters of the real string the model characters stand for"""
+        return "".join(self.dec.get(c, c) for c in t)
 
     def value_ok(self, v: List[Any], got: Any) -> bool:
-        cls, t = v[0], text(v[1])
+        cls, t = v[0], self.real(v[1])
+        if cls == "nlk":
+            return got is self.nlookup[t]
         if cls == "lk":
             want = self.lookup[t]
             return got is want or (type(got) is type(want) and got == want and not isinstance(want, LK))
         if cls == "int":
-            return type(got) is int and got == int(t)
+            return type(got) is int and got == exact_int(t)
         if cls == "float":
             return type(got) is float and got == float(t)
         return type(got) is str and got == t
@@ -106,14 +154,14 @@ def _rec(api: str, scn, exp, cod: Codec, why: str, got: Any, **extra) -> Dict[st
 
 
 def judge(scn: Dict[str, Any], exp: Dict[str, Any], *, unit: float = 1.0, as_timedelta: bool = False, falsy: bool = False,
-          with_error: bool = True, hist: bool = False, term: bool = False,
+          with_error: bool = True, hist: bool = False, term: bool = False, wide_profile: int = 0,
           apis=("parse", "cold", "hot", "ctx")) -> List[Dict[str, Any]]:
     """Failure records (empty list = every API call agreed with the model)."""
     import reactivex
     from reactivex.observable.marbles import parse
     from reactivex.testing import TestScheduler
     from reactivex.testing.marbles import marbles_testing
-    cod = Codec(scn, unit, falsy, with_error, term)
+    cod = Codec(scn, unit, falsy, with_error, term, wide_profile)
     par = scn["par"]
     s = cod.s
     ts_f = par["ts"] * unit
@@ -121,7 +169,7 @@ def judge(scn: Dict[str, Any], exp: Dict[str, Any], *, unit: float = 1.0, as_tim
     ts_arg = timedelta(seconds=ts_f) if as_timedelta else ts_f
     sh_arg = timedelta(seconds=sh_f) if as_timedelta else sh_f
     fails: List[Dict[str, Any]] = []
-    extra = {"as_timedelta": as_timedelta, "hist": hist, "term": term}
+    extra = {"as_timedelta": as_timedelta, "hist": hist, "term": term, "wide_profile": wide_profile}
     # the scheduler the observables run on: TestScheduler (float clock) or HistoricalScheduler (datetime clock)
     if hist:
         from reactivex.scheduler import HistoricalScheduler
